@@ -136,6 +136,19 @@ def rule_same_value(ck, rid="C02.R2"):
                    bad="stored charge, stored power and the returned rate do not share one definition of the granted power", sink="one-power-definition")
 
 
+def rule_ledger_start(ck, rid="C02.R3"):
+    """a new session has received nothing: EV.__init__ sets the delivered energy and the reported rate to the literal 0 on every path"""
+    repo = ck.repo
+    init = repo.fn("EV.__init__")
+    fl = flow_of(init)
+    for attr in ("self._energy_delivered", "self._current_charging_rate"):
+        st = [(n, t) for n, k, p, t in state_writes(fl) if p == attr and k == "assign"]
+        ok = bool(st) and all(isinstance(n.stmt.value, ast.Constant) and n.stmt.value.value == 0 and not isinstance(n.stmt.value.value, bool) for n, _ in st) \
+            and fl.cfg.exit not in fl.cfg.reach(fl.cfg.entry, avoid={n for n, _ in st})
+        ck.require(ok, rid, init, st[0][1] if st else f"{attr} = 0", ok=f"{attr.split('.')[1]} starts at 0",
+                   bad=f"a new EV does not start with {attr.split('.')[1]} = 0: the ledger is off from the first period", sink=f"ledger-start:{attr.split('.')[1]}")
+
+
 def rule_single_writers(ck, rid="C02.R3"):
     repo = ck.repo
     n = 0
@@ -321,6 +334,7 @@ def run(ck):
     ck.attempt(rule_units)
     ck.attempt(rule_same_value)
     ck.attempt(rule_single_writers)
+    ck.attempt(rule_ledger_start)
     ck.attempt(rule_call_chain)
     from .c01 import rule_loop
     ck.attempt(rule_loop, rid="C02.R4o")
